@@ -422,4 +422,32 @@ PROPS = {
         "quick": box(16, 400, 25, floor_evaluations=200, floor_shapes=20),
         "thorough": box(16, 12000, 420, floor_evaluations=2000, floor_shapes=50),
     },
+    "C10": {
+        "level": "exploration",
+        "technique": "runtime monitoring: structured hostile generators (brace/multi-byte targets, "
+                     "absent record fields, specification strings, FileSpec parts, odd custom "
+                     "timestamp formats, pre-populated directories, directory removal, every handle "
+                     "operation, recursive logging per writer kind in children) under a panic hook + "
+                     "catch_unwind per call + child exit status + progress watchdog + sentinel record",
+        "level_text": "Held on the executions explored: no call into the crate panicked (hook "
+                      "records thread, location, message from any thread), no child died or stopped "
+                      "making progress (8 s bound, confirmed by an immediate re-run), and the "
+                      "sentinel record logged after the hostile steps is in the output (logging "
+                      "continues). Error results at configuration time and error-channel lines at "
+                      "run time are accepted.",
+        "level_note": "Documented panics are not provoked (try_from without file name, invalid "
+                      "strftime, force_utc too late, broken error channel with panic flag). Not "
+                      "generated, with reasons in DESIGN.md: suffixes equal to the crate's reserved "
+                      "extensions (gz, restart-NNNN) and the empty-string suffix, indexes beyond "
+                      "99 999; for timestamp formats that chrono cannot parse back, that contain a "
+                      "dot, or whose lexical order is not chronological (%A, %s) only 'no panic' is "
+                      "asserted, not where records end up.",
+        "rule": "cases cycle through 5 kinds: targets (2/8), FileSpec/naming/directory content "
+                "(3/8), directory removed and re-created (1/8), specification strings (1/8), "
+                "recursion child per primary writer kind (1/8, 11 kinds); non-trivial iff at least "
+                "one API call was made under the oracle; distinct = shape keys per kind",
+        "assumptions": COMMON_ASSUMPTIONS,
+        "quick": box(16, 500, 25, floor_evaluations=200, floor_shapes=20),
+        "thorough": box(16, 16000, 480, floor_evaluations=2000, floor_shapes=40),
+    },
 }
